@@ -3,8 +3,10 @@ SPECIFICATION Spec
 CONSTANTS
   MaxEdits = 2
   MaxRegens = 3
-  Invalid = {1}
+  Invalid = {0}
   Mode = "concurrent"
+  Dirs = {"main", "imp"}
+  WatchDirs = "rearm"
   Kinds = {"write"}
 INVARIANTS ExportSchedules
 CHECK_DEADLOCK FALSE
